@@ -10,7 +10,7 @@
    strand break and ends d = bl d 0 0 ++ [0] adds the loop of the outer ends. *)
 From Coq Require Import List NArith.
 From DSD Require Import Base.Str Base.Errors Model.ComplexUtils Model.Loops Dyck.Dyck
-  Proofs.Db Proofs.Assoc Proofs.C06 Proofs.Loops Proofs.LoopsConn Proofs.LoopsObj.
+  Proofs.Db Proofs.Assoc Proofs.C06 Proofs.Loops Proofs.LoopsConn Proofs.LoopsObj Proofs.LoopsSem.
 Import ListNotations.
 
 (* every accepted structure is the rendering of a tree, the table is that tree's table *)
@@ -114,3 +114,58 @@ Theorem C08_same_shape_named : forall stab d,
   map (@length pstr) stab = map (@length (option loc)) (tab_of d) -> named stab (tab_of d).
 Proof. exact same_shape_named. Qed.
 Print Assumptions C08_same_shape_named.
+
+(* ---- what loops_of d says, position by position (numbering-free reading) ---- *)
+
+(* the loop index has the shape of the pair table *)
+Theorem C08_loops_shape : forall d a,
+  (exists n, getl (loops_of d) a = Some n) <-> (exists v, get (tab_of d) a = Some v).
+Proof. exact loops_shape. Qed.
+Print Assumptions C08_loops_shape.
+
+(* both partners of a pair carry the same loop number *)
+Theorem C08_loops_partners : forall d a b,
+  get (tab_of d) a = Some (Some b) ->
+  exists n, getl (loops_of d) a = Some n /\ getl (loops_of d) b = Some n.
+Proof. exact loops_partners. Qed.
+Print Assumptions C08_loops_partners.
+
+(* `opens d p` lists the positions whose partner comes later (opening brackets), in text order *)
+Theorem C08_opening_positions : forall d p,
+  opens d p = map fst (filter (fun kv => match snd kv with Some b => loc_ltb (fst kv) b | None => false end)
+                              (aents d p)).
+Proof. exact opens_spec. Qed.
+Print Assumptions C08_opening_positions.
+
+(* loops are numbered in the order of their opening bracket: the k-th one carries k + 1 *)
+Theorem C08_loops_numbered_by_opening_bracket : forall d k o,
+  nth_error (opens d (0, 0)) k = Some o -> getl (loops_of d) o = Some (S k).
+Proof. exact loops_opening. Qed.
+Print Assumptions C08_loops_numbered_by_opening_bracket.
+
+(* an unpaired position carries 0 if no pair encloses it, otherwise the number of
+   the innermost enclosing pair (the enclosing pair that opens last) *)
+Theorem C08_loops_unpaired : forall d a,
+  get (tab_of d) a = Some None ->
+  (getl (loops_of d) a = Some 0 /\ forall o, ~ enclosing d o a) \/
+  (exists o n, enclosing d o a /\ getl (loops_of d) o = Some n /\ getl (loops_of d) a = Some n /\
+               forall o', enclosing d o' a -> le_loc o' o).
+Proof. exact loops_unpaired. Qed.
+Print Assumptions C08_loops_unpaired.
+
+(* ext_spec, numbering-free: the k-th exterior loop recorded by make_loop_index
+   (ends d = bl d 0 0 ++ [0]) is the loop of the innermost pair inside which the
+   break after strand k lies, or loop 0 when no pair spans that break; there is
+   one such entry per strand break and a final 0 for the outer ends *)
+Theorem C08_exterior_loop_of_break : forall d k l,
+  nth_error (bl d 0 0) k = Some l ->
+  (l = 0 /\ forall o, ~ spanning d o k) \/
+  (exists o, spanning d o k /\ getl (loops_of d) o = Some l /\
+             forall o', spanning d o' k -> le_loc o' o).
+Proof. exact break_loop_spec. Qed.
+Print Assumptions C08_exterior_loop_of_break.
+
+Theorem C08_one_exterior_entry_per_break : forall d,
+  length (bl d 0 0) = length (tab_of d) - 1.
+Proof. exact break_count. Qed.
+Print Assumptions C08_one_exterior_entry_per_break.
